@@ -70,6 +70,7 @@ class FnInfo:
     labels: List[str] = field(default_factory=list)
     rewrites: List[str] = field(default_factory=list)
     n_loops: int = 0
+    open_closures: int = 0      # closures in the body that no //@closure section annotates (their result is unknown to the verifier)
     has_body: bool = True
     gen_name: str = ""
 
@@ -139,7 +140,7 @@ def chain_start(toks: List[Tok], k: int) -> int:
         return k
 
 
-def mechanical_rewrites(text: str, toks: List[Tok], r12: Optional[str] = None):
+def mechanical_rewrites(text: str, toks: List[Tok], r12: Optional[str] = None, open_closures=()):
     edits = []
     n = len(toks)
     # R19: RECV.splitn(N, 'c') with a char literal separator (str::splitn; the slice form takes a closure)
@@ -250,6 +251,82 @@ def mechanical_rewrites(text: str, toks: List[Tok], r12: Optional[str] = None):
             for _ in range(kk):
                 tail = "match vx_nt%d.next() { None => None, Some(_) => %s }" % (idx, tail)
             edits.append((toks[i - 1].start, toks[i + 3].end, "; " + tail + " }", "R16b"))
+    # R20: an Option/Result combinator applied to a closure that no contract section annotates is replaced by the `match` it is
+    #      defined as (core::option / core::result), which makes the closure body ordinary code of the function:
+    #        R.map(|P| B)            -> (match R { Some(P) => Some(B), None => None })
+    #        R.and_then(|P| B)       -> (match R { Some(P) => B, None => None })
+    #        R.filter(|P| B)         -> (match R { Some(vx_f) => if { let P = &vx_f; B } { Some(vx_f) } else { None }, None => None })
+    #        R.map_err(|P| B)        -> (match R { Ok(vx_o) => Ok(vx_o), Err(P) => Err(B) })
+    #        R.unwrap_or_else(|| B)  -> (match R { Some(vx_o) => vx_o, None => B })      (|P| B: the Result form)
+    #        R.ok_or_else(|| B)      -> (match R { Some(vx_o) => Ok(vx_o), None => Err(B) })
+    #      The Option forms are used for map / and_then / filter; on any other receiver type (Result, an iterator) the rewritten text
+    #      does not type-check and the function is emitted unverified (undecided) - never a wrong verdict.  Closures whose body
+    #      leaves the closure (`return`, `?`, `break`, `continue`) are left alone.  After the main pass, so that R12's opening
+    #      text at the same offset stays outside.
+    for (b1, b2, bs, be) in open_closures:
+        dflt = None
+        if b1 >= 5 and toks[b1 - 1].text == "," and be < n and toks[be].text == ")":
+            #        R.map_or(D, |P| B)      -> (match R { Some(P) => (B), None => D })     D free of calls, blocks, macros (no evaluation
+            #                                                                              order to preserve)
+            j = b1 - 2
+            while j > 0 and toks[j].text not in ("(", ")", "[", "]", "{", "}", "!", ",", ";"):
+                j -= 1
+            if toks[j].text == "(" and j < b1 - 2 and toks[j - 1].text == "map_or" and toks[j - 2].text == ".":
+                dflt = text[toks[j + 1].start:toks[b1 - 2].end]
+                b0 = j + 1      # plays the role of b1 below: the token after the opening parenthesis
+        if dflt is None:
+            b0 = b1
+        if b0 < 3 or toks[b0 - 1].text != "(" or toks[b0 - 3].text != "." or be >= n or toks[be].text != ")":
+            continue
+        name = toks[b0 - 2].text
+        if name not in ("map", "and_then", "filter", "map_err", "unwrap_or_else", "ok_or_else", "is_some_and", "map_or"):
+            continue
+        if (name == "map_or") != (dflt is not None):
+            continue
+        if any(t.text in ("return", "?", "break", "continue") for t in toks[bs:be]):
+            continue
+        if any((x[0] > b1 and x[0] < be) for x in open_closures):      # nested un-annotated closure: leave the outer one alone
+            continue
+        ptoks = toks[b1 + 1:b2] if toks[b1].text == "|" else []
+        d, cut = 0, None
+        for j, t in enumerate(ptoks):
+            if t.text in ("(", "[", "<"):
+                d += 1
+            elif t.text in (")", "]", ">"):
+                d -= 1
+            elif t.text == ":" and d == 0:
+                cut = j
+                break
+            elif t.text == "," and d == 0:
+                cut = -1
+                break
+        if cut == -1:
+            continue
+        if cut is not None:
+            ptoks = ptoks[:cut]
+        pat = text[ptoks[0].start:ptoks[-1].end] if ptoks else None
+        if name in ("map", "and_then", "filter", "map_err", "is_some_and", "map_or") and pat is None:
+            continue
+        if name == "ok_or_else" and pat is not None:
+            continue
+        try:
+            k = chain_start(toks, b0 - 4)
+        except SpliceError:
+            continue
+        head, tail = {
+            "map": (" { Some(%s) => Some(" % pat, "), None => None })"),
+            "and_then": (" { Some(%s) => (" % pat, "), None => None })"),
+            "filter": (" { Some(vx_f) => if { let %s = &vx_f; " % pat, " } { Some(vx_f) } else { None }, None => None })"),
+            "map_err": (" { Ok(vx_o) => Ok(vx_o), Err(%s) => Err(" % pat, ") })"),
+            "unwrap_or_else": ((" { Some(vx_o) => vx_o, None => (", ") })") if pat is None else
+                               (" { Ok(vx_o) => vx_o, Err(%s) => (" % pat, ") })")),
+            "ok_or_else": (" { Some(vx_o) => Ok(vx_o), None => Err(", ") })"),
+            "is_some_and": (" { Some(%s) => (" % pat, "), None => false })"),
+            "map_or": (" { Some(%s) => (" % pat, "), None => %s })" % dflt),
+        }[name]
+        edits.append((toks[k].start, toks[k].start, "(match ", "R20a"))
+        edits.append((toks[b0 - 3].start, toks[b2].end, head, "R20b"))
+        edits.append((toks[be].start, toks[be].end, tail, "R20c"))
     return edits
 
 
@@ -600,6 +677,7 @@ class Splicer:
         # ---- sections
         loops = find_loops(toks, body_open, body_close) if it.has_body else []
         closures = find_closures(toks, body_open, body_close) if it.has_body else []
+        annotated_closures = set()
         info.n_loops = len(loops)
         body_text_lo = toks[body_open].start
         body_text_hi = toks[body_close].end
@@ -661,6 +739,24 @@ class Splicer:
                     out.append(l)
             guarded.append((name, args, out, sline_no))
         sections = guarded
+        # R21 (see the loop sections below): where the code spells an R8 loop as `while let Some(p) = x.next()`, the contract's name of
+        # the iterator is replaced by x in every section of the function
+        r21 = {}
+        for (name, args, slines, sline_no) in sections:
+            m21 = re.match(r"\s*(\d+)(.*)", args) if name == "loop" else None
+            if m21 and parse_kv(m21.group(2)).get("r8") and int(m21.group(1)) < len(loops):
+                kw21, br21 = loops[int(m21.group(1))]
+                if toks[kw21].text == "while" and toks[kw21 + 1].text == "let" and toks[kw21 + 2].text == "Some" and toks[kw21 + 3].text == "(":
+                    c21 = match_close(toks, kw21 + 3)
+                    if toks[c21 + 1].text == "=" and toks[c21 + 2].kind == "ident" and toks[c21 + 3].text == "." and \
+                            toks[c21 + 4].text == "next" and toks[c21 + 5].text == "(" and toks[c21 + 6].text == ")" and c21 + 7 == br21:
+                        r21[parse_kv(m21.group(2))["r8"]] = toks[c21 + 2].text
+        if r21:
+            def ren21(l):
+                for a, b in r21.items():
+                    l = re.sub(r"\b%s\b" % re.escape(a), b, l)
+                return l
+            sections = [(n_, a_, [ren21(l) for l in sl], no) for (n_, a_, sl, no) in sections]
         for (name, args, slines, sline_no) in sections:
             meta = dict(tmpl=(tmpl_file, sline_no))
             block = "\n".join(slines)
@@ -714,6 +810,31 @@ class Splicer:
                 kwi, bri = loops[idx]
                 if lkv.get("r8"):
                     # R8: `for PAT in EXPR { BODY }` -> `{ let mut it = EXPR; loop INV { let PAT = match it.next() { Some(x) => x, None => break }; BODY } }`
+                    if toks[kwi].text == "while" and toks[kwi + 1].text == "let" and toks[kwi + 2].text == "Some" \
+                            and toks[kwi + 3].text == "(":
+                        # R21: `while let Some(PAT) = X.next() { BODY }` (X a variable) is the loop R8 produces from `for PAT in E`
+                        #      once `let mut X = E;` has been written by hand:  ->  `loop INV { let PAT = match X.next() { Some(v) => v,
+                        #      None => break }; BODY }`; the iterator name of the contract text is replaced by X
+                        c21 = match_close(toks, kwi + 3)
+                        ok21 = toks[c21 + 1].text == "=" and toks[c21 + 2].kind == "ident" and toks[c21 + 3].text == "." and \
+                            toks[c21 + 4].text == "next" and toks[c21 + 5].text == "(" and toks[c21 + 6].text == ")" and c21 + 7 == bri
+                        if not ok21 or lkv["r8"] not in r21:
+                            raise SpliceError("lost anchor: %s loop %d is not a for loop (R8) nor `while let Some(p) = x.next()` (R21)" % (key, idx))
+                        xn = toks[c21 + 2].text
+                        pat = text[toks[kwi + 4].start:toks[c21 - 1].end]
+                        sl21 = slines
+                        ghost_check(sl21, "loop %d" % idx)
+                        stripped = [x.strip() for x in sl21]
+                        cut = stripped.index("//---pre") if "//---pre" in stripped else len(sl21)
+                        hdr_block = "\n".join(sl21[:cut])
+                        pre_lines = sl21[cut + 1:]
+                        edits.append((toks[kwi].start, toks[bri].start, "loop\n", "R21a", {}))
+                        edits.append((toks[bri].start, toks[bri].start, hdr_block + "\n", "loop", dict(meta)))
+                        edits.append((toks[bri].end, toks[bri].end, "\n", "R21b", {}))
+                        edits.append((toks[bri].end, toks[bri].end, "\n".join(pre_lines) + "\n", "ghost", dict(tmpl=(tmpl_file, sline_no + cut + 1))))
+                        edits.append((toks[bri].end, toks[bri].end, "let %s = match %s.next() { Some(vx_x) => vx_x, None => break };" % (pat, xn), "R21b", {}))
+                        info.rewrites.append("R21@%s:%d" % (os.path.basename(sf.path), sf.line_of(base + toks[kwi].start)))
+                        continue
                     if toks[kwi].text != "for":
                         raise SpliceError("lost anchor: %s loop %d is not a for loop (R8)" % (key, idx))
                     k = kwi
@@ -780,6 +901,7 @@ class Splicer:
                     raise SpliceError("lost anchor: %s has %d closures, contract names closure %d" %
                                       (key, len(closures), idx))
                 b1, b2, bs, be = closures[idx]
+                annotated_closures.add(idx)
                 orig_params = [t.text for t in toks[b1 + 1:b2] if t.kind == "ident"]
                 new_params = ckv.get("params", "")
                 # parameter names = identifiers before the type annotation of each top-level parameter
@@ -899,6 +1021,8 @@ class Splicer:
                 pass        # handled with the R11 rewrite below
             else:
                 raise SpliceError("%s: unknown section %s" % (key, name))
+        open_cl = [c for ci, c in enumerate(closures) if ci not in annotated_closures]
+        info.open_closures = 0 if external else len(open_cl)
         # ---- mechanical rewrites
         all_sections = {}
         for (name, args, slines, sline_no) in sections:
@@ -911,7 +1035,7 @@ class Splicer:
                 # the body was rejected by the verifier / by rustc in the verification context (a stand-in trait bound, a rewrite
                 # that no longer fits): it is not verified anyway, so it is left out altogether
                 edits.append((toks[body_open].start, toks[body_close].end, "{ unimplemented!() }", "stub", {}))
-        for (s, e, rep, rule) in ([] if external else mechanical_rewrites(text, toks, kv.get("r12", self.defaults.get("r12")))):
+        for (s, e, rep, rule) in ([] if external else mechanical_rewrites(text, toks, kv.get("r12", self.defaults.get("r12")), open_cl)):
             meta = {}
             if rule == "R11c":
                 m = re.search(r"/\*@ALL(\d+)@\*/", rep)
@@ -944,6 +1068,8 @@ class Splicer:
                 raise SpliceError("lost anchor: %s: .all() call %d has no //@all section" % (key, k))
             edits.append((s, e, rep, rule, meta))
             info.rewrites.append("%s@%s:%d" % (rule, os.path.basename(sf.path), sf.line_of(base + s)))
+            if rule == "R20a":
+                info.open_closures -= 1
         if all_sections:
             raise SpliceError("lost anchor: %s: //@all %s has no matching .all() call" % (key, sorted(all_sections)))
         if "rename" in kv:
